@@ -28,7 +28,7 @@ def field(line, key):
 
 def main(tier, replay=None):
     c = V.Check(PID, tier)
-    proofs_ok = c.proofs(gen_only=[])
+    proofs_ok = c.proofs(gen_only=["Consts.v"])
     c.log("proofs:", "ok" if proofs_ok else c.proof_break)
     outs, err = V.go_build(["c20"])
     if outs is None:
